@@ -38,7 +38,11 @@ RULE = ("streams of 1..k valid frames per connection type with sizes straddling 
         "connection objects of one type with interleaved reads (objects created at first use), and multi-MiB frames "
         "(1/5/17 MiB; 16 MiB-1 for Companion) with a handful of cuts on the real code only; and the layer above "
         "(fake listener / request handler) raising on its k-th call, every k, compared with the one-read stream "
-        "under the same fault (MRP, Companion, data channel, HTTP server)")
+        "under the same fault (MRP, Companion, data channel, HTTP server); and other events between the reads: "
+        "enable_encryption called once the last clear-text frame was delivered while 1..N-1 bytes of the next "
+        "(encrypted) frame are already buffered (Companion, MRP; reference: the read ends on the frame boundary), and "
+        "the caller of an HTTP request giving up (task cancelled, as a timeout does) after j reads of its response in a "
+        "strictly sequential exchange (reference: the whole response arrives after the caller gave up)")
 ASSUMPTIONS = [
     "asyncio calls data_received sequentially with non-empty chunks and closes the transport when it raises",
     "ChaCha20-Poly1305 is a parameter of the model: the Lean driver is told the plaintext of each HAP block",
@@ -48,6 +52,11 @@ ASSUMPTIONS = [
     "a consumer fault is injected by call index; the pinned code swallows it for MRP, Companion and the HTTP server "
     "(framing goes on) and lets it escape data_received for the data channel (asyncio then closes the transport: the "
     "harness stops feeding); EventChannel and HttpConnection call no user code while receiving",
+    "events between reads are applied where the pinned code defines the outcome: encryption is switched on only while no "
+    "complete encrypted frame has been read yet (a complete one in the same read as the last clear-text frame would be "
+    "handed up undecrypted by the pinned code - the device does not send before the client does), an abandoned request's "
+    "successor is sent after the late response arrived completely (otherwise C03's known FIFO mismatch D9 applies); "
+    "HAPSession.enable / receive_processor switching mid-stream and close-and-reuse of a connection object are not exercised",
     "sends and other connections are operations that leave the receive state untouched in the model "
     "(C02_sends_irrelevant, C02_connections_independent); the harness checks the real objects behave so",
 ]
